@@ -161,26 +161,28 @@ Definition load_intermediate_key (e : env) (meta : keymeta) : M nat :=
       end
   end.
 
+(* the part of EncryptPayload that runs once the intermediate key is in hand *)
+Definition encrypt_with_ik (e : env) (ik : nat) (payload : ptxt) : M drr :=
+  now <- get_now ;;
+  drk <- generate_key (now / sec) ;;
+  finally
+    (drkb <- key_bytes drk ;;
+     enc_data <- aead_encrypt payload drkb ;;
+     ikb <- key_bytes ik ;;
+     drkb2 <- key_bytes drk ;;
+     enc_key <- aead_encrypt drkb2 ikb ;;
+     drko <- kobj_get drk ;;
+     iko <- kobj_get ik ;;
+     ret {| d_key := Some {| e_revoked := false; e_created := ko_created drko; e_key := enc_key;
+                             e_parent := Some {| km_id := ik_id e; km_created := ko_created iko |} |};
+            d_data := enc_data |})
+    (ck_close drk).
+
 (* EncryptPayload *)
 Definition encrypt_payload (e : env) (payload : ptxt) : M drr :=
   ik <- get_or_load_latest (en_ik e) (p_rci (en_pol e)) (p_expire (en_pol e)) (ik_id e)
                            (fun m => load_latest_or_create_intermediate_key e (km_id m)) ;;
-  finally
-    (now <- get_now ;;
-     drk <- generate_key (now / sec) ;;
-     finally
-       (drkb <- key_bytes drk ;;
-        enc_data <- aead_encrypt payload drkb ;;
-        ikb <- key_bytes ik ;;
-        drkb2 <- key_bytes drk ;;
-        enc_key <- aead_encrypt drkb2 ikb ;;
-        drko <- kobj_get drk ;;
-        iko <- kobj_get ik ;;
-        ret {| d_key := Some {| e_revoked := false; e_created := ko_created drko; e_key := enc_key;
-                                e_parent := Some {| km_id := ik_id e; km_created := ko_created iko |} |};
-               d_data := enc_data |})
-       (ck_close drk))
-    (cck_close ik).
+  finally (encrypt_with_ik e ik payload) (cck_close ik).
 
 (* decryptRow *)
 Definition decrypt_row (ik : nat) (key : ekr) (data : ctxt) : M ptxt :=
